@@ -57,6 +57,7 @@ PROFILES = {
             "vec": 12, "input_tuple": 5, "vec_of_input": 8, "vec_of_cols": 3, "drop_input": 2, "copy": 3, "getitem": 4, "binop": 2,
             "tab_dict": 3, "tab_vecs": 4, "rshift": 4, "lshift": 2, "t2d": 1, "view": 5, "setattr": 4, "deepcopy": 1,
             "writeback": 16, "set": 4, "tset": 2, "drop": 10, "park": 4, "collect": 3, "read": 1,
+            "fillna": 2, "cast": 1, "v0": 2, "sort": 1, "tsel": 1,
         },
         "core": ["vec", "writeback", "drop"],
         "knobs": {"p_wider": [0.2, 0.4], "p_incompat": [0.0], "max_objs": [4, 7, 10], "p_empty": [0.0, 0.03, 0.1],
@@ -68,7 +69,8 @@ PROFILES = {
     "fingerprint": {
         "weights": {
             "vec": 8, "tab_dict": 8, "tab_vecs": 4, "copy": 2, "getitem": 2, "rshift": 3, "view": 10,
-            "set": 14, "tset": 12, "setattr": 6, "setname": 1, "rencol": 1, "fp": 22, "read": 3, "binop": 1, "sort": 1,
+            "set": 14, "tset": 12, "setattr": 6, "setname": 1, "rencol": 1, "fp": 22, "read": 3, "binop": 1, "sort": 2,
+            "fillna": 2, "cast": 1, "v0": 2, "lshift": 2, "tsel": 1, "t2d": 1, "join": 1,
             "drop": 2,
         },
         "core": ["vec", "tab_dict", "fp", "set", "tset", "view"],
